@@ -179,6 +179,93 @@ fn program(lits: &[&String]) -> String {
     s
 }
 
+/// How an accepted literal reaches Dec! through a declarative macro (the proc macro then sees the
+/// literal inside an invisible group, or the sign and the literal as separate fragments)
+#[derive(Clone, Copy, PartialEq)]
+enum Wrap {
+    Tt,     // fwd_tt!(L)   -> Dec!(L) token for token
+    Lit,    // fwd_lit!(L)  -> Dec!($x) with $x:literal
+    NegLit, // neg_lit!(U)  -> Dec!(-$x) with $x:literal, U unsigned: must equal from_str("-U")
+}
+
+/// wrapper invocations for the accepted literals: (source expression, expected value, description)
+fn wrapped(ok_lits: &[&String], ok_exp: &[(i128, u8)]) -> Vec<(String, (i128, u8), String)> {
+    let mut v = Vec::new();
+    for (l, e) in ok_lits.iter().zip(ok_exp) {
+        v.push((format!("fwd_tt!({l})"), *e, format!("Dec!({l}) forwarded through macro_rules ($($t:tt)*)")));
+        let unsigned = !l.starts_with('-') && !l.starts_with('+');
+        // a $x:literal fragment takes exactly one rustc literal token (with an optional minus)
+        if !single_literal_token(l) {
+            continue;
+        }
+        if !l.starts_with('+') {
+            v.push((format!("fwd_lit!({l})"), *e, format!("Dec!($x) with $x:literal = {l}")));
+        }
+        if unsigned {
+            if let Some(n) = runtime(&format!("-{l}")) {
+                v.push((format!("neg_lit!({l})"), n, format!("Dec!(-$x) with $x:literal = {l}")));
+            }
+        }
+    }
+    let _ = (Wrap::Tt, Wrap::Lit, Wrap::NegLit);
+    v
+}
+
+const WRAP_FIRST_LINE: usize = 7; // line of the first table entry in the wrapper program
+
+/// digits [. digits] [e|E [+|-] digits], optionally preceded by '-': what rustc lexes as one
+/// (possibly negated) integer or float literal without suffix
+fn single_literal_token(l: &str) -> bool {
+    let b = l.strip_prefix('-').unwrap_or(l).as_bytes();
+    let mut i = 0;
+    let digits = |i: &mut usize| {
+        let s = *i;
+        while *i < b.len() && b[*i].is_ascii_digit() {
+            *i += 1;
+        }
+        *i > s
+    };
+    if !digits(&mut i) {
+        return false;
+    }
+    if i < b.len() && b[i] == b'.' {
+        i += 1;
+        if !digits(&mut i) {
+            return false;
+        }
+    }
+    if i < b.len() && (b[i] == b'e' || b[i] == b'E') {
+        i += 1;
+        if i < b.len() && (b[i] == b'+' || b[i] == b'-') {
+            i += 1;
+        }
+        if !digits(&mut i) {
+            return false;
+        }
+    }
+    i == b.len()
+}
+
+fn wrap_program(entries: &[(String, (i128, u8), String)]) -> String {
+    let mut s = String::new();
+    s.push_str("use fpdec::{Dec, Decimal};
+");
+    s.push_str("macro_rules! fwd_tt { ($($t:tt)*) => { Dec!($($t)*) }; }
+");
+    s.push_str("macro_rules! fwd_lit { ($x:literal) => { Dec!($x) }; }
+");
+    s.push_str("macro_rules! neg_lit { ($x:literal) => { Dec!(-$x) }; }
+");
+    s.push_str("#[rustfmt::skip]
+");
+    s.push_str("const T: &[(u32, Decimal)] = &[\n");
+    for (i, (src, _, _)) in entries.iter().enumerate() {
+        s.push_str(&format!("({i}, {src}),\n"));
+    }
+    s.push_str("];\nfn main() { for (i, d) in T { println!(\"{} {} {}\", i, d.coefficient(), d.n_frac_digits()); } }\n");
+    s
+}
+
 fn setup_project(root: &Path) -> (PathBuf, PathBuf) {
     let base = root.join("harness/target/c18");
     let proj = base.join(format!("proj-{}", std::process::id()));
@@ -306,7 +393,7 @@ pub fn run(opts: &Opts) -> ! {
         "coverage": {
             "evaluations": total,
             "distinct_nontrivial": nontrivial.len(),
-            "rule": "Generated programs: literal texts from a grammar restricted to what rustc lexes as one optional sign plus one unsuffixed integer/float literal (digits up to 40 places, exponents -400..=400 weighted to -40..=40, leading zeros, boundary coefficients around 2^127/2^128/10^38/10^39 with points and compensating exponents, scale limits 17/18/19, zero forms) plus a few underscore/radix/suffix/fraction-first forms. Each batch becomes two binaries of a scratch crate, built in the dev profile and again with --release (cargo builds the proc macro of a release build without overflow checks): P_ok (literals from_str accepts) must compile and print the same (coefficient, scale) as from_str; P_all (all literals) must produce a compiler error exactly on the lines of the literals from_str rejects. Non-trivial: literal has a fraction or an exponent; distinct by text.",
+            "rule": "Generated programs: literal texts from a grammar restricted to what rustc lexes as one optional sign plus one unsuffixed integer/float literal (digits up to 40 places, exponents -400..=400 weighted to -40..=40, leading zeros, boundary coefficients around 2^127/2^128/10^38/10^39 with points and compensating exponents, scale limits 17/18/19, zero forms) plus a few underscore/radix/suffix/fraction-first forms. Each batch becomes two binaries of a scratch crate, built in the dev profile and again with --release (cargo builds the proc macro of a release build without overflow checks): P_ok (literals from_str accepts) must compile and print the same (coefficient, scale) as from_str; P_all (all literals) must produce a compiler error exactly on the lines of the literals from_str rejects; P_wrap hands every accepted literal to Dec! through declarative macros (token forwarding, a $x:literal fragment, and Dec!(-$x) for unsigned literals, where the proc macro sees invisible groups and separate sign tokens) and must print from_str's values. Non-trivial: literal has a fraction or an exponent; distinct by text.",
             "samples": samples,
             "programs": programs,
             "accepted_by_from_str": accepted,
@@ -393,6 +480,56 @@ fn run_batch(root: &Path, lits: &[String], verbose: bool) -> (Vec<(String, Strin
                 }
                 if n != ok_lits.len() {
                     println!("INCONCLUSIVE: P_ok printed {n} of {} lines (status {:?})", ok_lits.len(), out.status);
+                    let _ = std::fs::remove_dir_all(&proj);
+                    std::process::exit(2);
+                }
+            }
+        }
+        // ---- P_wrap: the accepted literals handed to Dec! through declarative macros
+        if !ok_lits.is_empty() {
+            let entries = wrapped(&ok_lits, &ok_exp);
+            std::fs::write(proj.join("src/bin/p_wrap.rs"), wrap_program(&entries)).unwrap();
+            programs += 1;
+            let b = cargo_build(&proj, &target, "p_wrap", release);
+            if !b.other_errors.is_empty() {
+                println!("INCONCLUSIVE: unexpected compiler output for P_wrap: {:?}", b.other_errors.iter().take(3).collect::<Vec<_>>());
+                let _ = std::fs::remove_dir_all(&proj);
+                std::process::exit(2);
+            }
+            for (line, msgs) in &b.errors {
+                if *line >= WRAP_FIRST_LINE && line - WRAP_FIRST_LINE < entries.len() {
+                    let (src, e, what) = &entries[line - WRAP_FIRST_LINE];
+                    viol.push((src.clone(), format!("[{pname}] {what}: from_str gives {e:?} but the invocation fails to compile: {}", msgs.join("; "))));
+                } else {
+                    println!("INCONCLUSIVE: compiler error outside the table of P_wrap (line {line}): {msgs:?}");
+                    let _ = std::fs::remove_dir_all(&proj);
+                    std::process::exit(2);
+                }
+            }
+            if b.ok {
+                let exe = target.join(if release { "release/p_wrap" } else { "debug/p_wrap" });
+                let out = Command::new(&exe).output().expect("run p_wrap");
+                let text = String::from_utf8_lossy(&out.stdout);
+                let mut n = 0;
+                for line in text.lines() {
+                    let f: Vec<&str> = line.split(' ').collect();
+                    if f.len() != 3 {
+                        continue;
+                    }
+                    let i: usize = f[0].parse().unwrap();
+                    let c: i128 = f[1].parse().unwrap();
+                    let sc: u8 = f[2].parse().unwrap();
+                    n += 1;
+                    let (src, e, what) = &entries[i];
+                    if verbose {
+                        println!("  {src} = ({c}, {sc}); expected {e:?}");
+                    }
+                    if (c, sc) != *e {
+                        viol.push((src.clone(), format!("[{pname}] {what} gives ({c}, {sc}) but from_str gives {e:?}")));
+                    }
+                }
+                if n != entries.len() {
+                    println!("INCONCLUSIVE: P_wrap printed {n} of {} lines (status {:?})", entries.len(), out.status);
                     let _ = std::fs::remove_dir_all(&proj);
                     std::process::exit(2);
                 }
